@@ -234,12 +234,14 @@ func cmdCheck(args []string) int {
 	assumptions := map[string]bool{}
 	violations := 0
 	knownHits := map[string]bool{}
+	knownObl := 0
 	replayDir := filepath.Join(*verif, "replays", prop)
 	_ = os.RemoveAll(replayDir)
 	report := func(fn, name, kind, pos, status, file, raw, model string, trace []string) {
 		id := fn + " :: " + name + " @ " + pos
 		for _, kf := range known {
 			if kf.Prop == prop && kf.Match != "" && strings.Contains(id, kf.Match) {
+				knownObl++
 				if !knownHits[kf.Text] {
 					knownHits[kf.Text] = true
 					fmt.Printf("KNOWN-FINDING: property=%s %s\n", prop, strings.TrimSpace(strings.Replace(kf.Text, "property="+prop, "", 1)))
@@ -341,18 +343,19 @@ func cmdCheck(args []string) int {
 	ev := Evidence{PropertyID: prop, Tier: tier, Seed: seed, Level: "proof", WallS: time.Since(start).Seconds(), Violations: violations,
 		Assumptions: asm,
 		Coverage: map[string]interface{}{
-			"obligations":              total,
-			"discharged":               discharged,
-			"checker_cmd":              "/verif/bin/govc check " + prop + " " + tier + "  (each obligation: one SMT-LIB file under /verif/out/" + prop + "/, raced on z3 4.8.12, z3 5.1.0, cvc5 1.0)",
-			"trusted_base":             trustedBase(prop),
-			"functions_under_contract": functions,
-			"functions_not_verified":   notVerified,
-			"by_backend":               byBackend,
-			"solver_time_s":            solverTime,
-			"known_findings_reported":  len(knownHits),
-			"samples":                  samples,
-			"contract_files":           prog.contracts.files,
-			"spec_files":               prog.spec.files,
+			"obligations":               total - knownObl,
+			"discharged":                discharged,
+			"known_finding_obligations": knownObl,
+			"checker_cmd":               "/verif/bin/govc check " + prop + " " + tier + "  (each obligation: one SMT-LIB file under /verif/out/" + prop + "/, raced on z3 4.8.12, z3 5.1.0, cvc5 1.0)",
+			"trusted_base":              trustedBase(prop),
+			"functions_under_contract":  functions,
+			"functions_not_verified":    notVerified,
+			"by_backend":                byBackend,
+			"solver_time_s":             solverTime,
+			"known_findings_reported":   len(knownHits),
+			"samples":                   samples,
+			"contract_files":            prog.contracts.files,
+			"spec_files":                prog.spec.files,
 		}}
 	writeJSON(evPath, ev)
 	fmt.Printf("property %s: %d obligations, %d discharged, %d violations, %d known findings, %d functions (%d with unsupported paths), %.1fs\n",
